@@ -21,6 +21,7 @@ use crate::sched::{SchedKind, SchedSpec};
 pub const MAX_STEPS: usize = 600_000;
 pub const FAIR_AFTER: u32 = 60_000;
 pub const ORDER_LIMIT: usize = 5040;
+pub const SURVEY_BUDGET: usize = 20_000;
 
 #[derive(Clone, Debug, Serialize, Deserialize)]
 pub struct Payload {
@@ -85,29 +86,25 @@ pub fn eval_run(scn: &Arc<Scenario>, spec: &SchedSpec) -> RunInfo {
                 }
             }
         }
-        Outcome::Panic(msg) => {
-            let (n, p, _b, first) = serial_survey(scn, ORDER_LIMIT);
-            if p > 0 {
-                Verdict::Discard(format!("{p} of {n} serial orders panic too: {}", first.unwrap_or_default()))
-            } else {
-                Verdict::Violation { class: "panic", message: format!("a thread panicked under this schedule although none of {n} serial orders panics: {msg}") }
+        Outcome::Panic(msg) => match serial_explains(scn, Symptom::Panics, SURVEY_BUDGET) {
+            (Some(true), _, why) => Verdict::Discard(why.unwrap_or_default()),
+            (None, n, _) => {
+                let _ = n;
+                Verdict::Inconclusive("panic: too many serial executions to rule out a sequential explanation")
             }
-        }
-        Outcome::Deadlock(msg) => {
-            let (n, _p, b, _) = serial_survey(scn, ORDER_LIMIT);
-            if b > 0 {
-                Verdict::Discard(format!("{b} of {n} serial orders block too"))
-            } else {
-                Verdict::Violation { class: "deadlock", message: format!("all threads blocked although none of {n} serial orders blocks: {msg}") }
-            }
-        }
+            (Some(false), n, _) => Verdict::Violation { class: "panic", message: format!("a thread panicked under this schedule although none of {n} serial executions (every order of every subset of the transactions) panics: {msg}") },
+        },
+        Outcome::Deadlock(msg) => match serial_explains(scn, Symptom::Blocks, SURVEY_BUDGET) {
+            (Some(true), _, why) => Verdict::Discard(why.unwrap_or_default()),
+            (None, _, _) => Verdict::Inconclusive("deadlock: too many serial executions to rule out a sequential explanation"),
+            (Some(false), n, _) => Verdict::Violation { class: "deadlock", message: format!("all threads blocked although none of {n} serial executions (every order of every subset of the transactions) blocks: {msg}") },
+        },
         Outcome::StepBound => {
             if info.sched.turned_fair {
-                let (n, _p, b, _) = serial_survey(scn, ORDER_LIMIT);
-                if b > 0 {
-                    Verdict::Discard(format!("{b} of {n} serial orders block"))
-                } else {
-                    Verdict::Violation { class: "non-termination", message: format!("no termination within {MAX_STEPS} steps, of which the last ran fault-free under a fair schedule") }
+                match serial_explains(scn, Symptom::Blocks, SURVEY_BUDGET) {
+                    (Some(true), _, why) => Verdict::Discard(why.unwrap_or_default()),
+                    (None, _, _) => Verdict::Inconclusive("step bound: too many serial executions to rule out a sequential explanation"),
+                    (Some(false), _, _) => Verdict::Violation { class: "non-termination", message: format!("no termination within {MAX_STEPS} steps, of which the last ran fault-free under a fair schedule") },
                 }
             } else {
                 Verdict::Inconclusive("step bound before the fair phase")
@@ -315,8 +312,111 @@ pub fn gen_s5(rng: &mut Rng) -> Scenario {
     Scenario { init, order: [vec![], vec![], vec![]], threads, f2: (0..nt).map(|_| if rng.chance(0.3) { vec![rng.below(3) as u32] } else { vec![] }).collect(), pre: vec![] }
 }
 
+/// Every topology edit that is valid on the model state and involves dart `x` (as the dart
+/// itself or as the second argument).
+fn edits_involving(s: &crate::state::State, x: u32, in_use: &[u32]) -> Vec<crate::ops::Op> {
+    use crate::ops::Op;
+    let mut out = vec![];
+    for i in 1..=s.dim {
+        if s.b(i, x) != 0 {
+            out.push(Op::Unsew { i, l: x });
+            out.push(Op::Unlink { i, l: x });
+        } else {
+            for &r in in_use {
+                let free_r = if i == 1 { s.b(0, r) == 0 } else { s.b(i, r) == 0 && r != x };
+                if free_r && (i != 3) {
+                    out.push(Op::Sew { i, l: x, r });
+                    if out.len() % 3 == 0 {
+                        out.push(Op::Link { i, l: x, r });
+                    }
+                }
+            }
+        }
+        // x as the right-hand argument
+        let free_x = if i == 1 { s.b(0, x) == 0 } else { s.b(i, x) == 0 };
+        if free_x && i != 3 {
+            for &l in in_use {
+                if s.b(i, l) == 0 && (i == 1 || l != x) {
+                    out.push(Op::Sew { i, l, r: x });
+                }
+            }
+        }
+    }
+    out
+}
+
+/// S1b / S2b: two (or three) threads, one single-operation transaction each, all operations
+/// valid on the initial state and involving the same dart or its neighbours, on a fully
+/// embedded map: maximal density of conflicting read and write sets.
+pub fn gen_pair_conflict(rng: &mut Rng) -> Scenario {
+    use crate::ops::{Op, Runner, Tx};
+    use crate::props::hprops::Flavour;
+    let dim3 = rng.chance(0.3);
+    let mut init = if dim3 {
+        crate::gen3::gen_init_3d(rng, Flavour::Sews, Tier::Quick)
+    } else {
+        let kinds = if rng.chance(0.5) { 0 } else { rand_kinds_2d(rng) };
+        let n = 4 + rng.below(9);
+        random_state_2d(rng, n, kinds)
+    };
+    if rng.chance(0.85) {
+        let pv = init.partition(0);
+        for d in 1..init.n() as u32 {
+            if !init.unused[d as usize] && pv[d as usize] == d && init.vtx[d as usize].is_none() {
+                init.vtx[d as usize] = Some(rand_point(rng, init.dim));
+            }
+        }
+    }
+    let order = rand_order(rng, init.kinds);
+    let in_use: Vec<u32> = (1..init.n() as u32).filter(|&d| !init.unused[d as usize]).collect();
+    let x = *rng.pick(&in_use);
+    // the dart and its neighbourhood
+    let mut hood = vec![x];
+    for i in 0..=init.dim {
+        let e = init.b(i, x);
+        if e != 0 && !hood.contains(&e) {
+            hood.push(e);
+        }
+    }
+    let n_threads = 2 + usize::from(rng.chance(0.25));
+    let mut threads = vec![];
+    let mut used: Vec<Op> = vec![];
+    for t in 0..n_threads {
+        let y = if t == 0 { x } else { *rng.pick(&hood) };
+        let mut cands = edits_involving(&init, y, &in_use);
+        cands.retain(|o| !used.contains(o));
+        let op = if cands.is_empty() {
+            let g = OpGen::new(rng, &init, 1);
+            g.topo(rng)
+        } else {
+            cands.swap_remove(rng.below(cands.len()))
+        };
+        used.push(op.clone());
+        let runner = match rng.below(4) {
+            0 => Runner::Force,
+            1 => Runner::ControlRetry,
+            _ => Runner::WithErr,
+        };
+        let mut ops = vec![op];
+        if rng.chance(0.3) {
+            // the transaction also returns what it sees of the neighbourhood
+            let d = *rng.pick(&hood);
+            let extra = match rng.below(3) {
+                0 => Op::CellId { okind: 0, d },
+                1 => Op::ReadV { id: init.cell_id(crate::state::Policy::Vertex, d) },
+                _ => Op::Audit { kinds: init.kinds, data: true },
+            };
+            if rng.chance(0.5) { ops.push(extra) } else { ops.insert(0, extra) }
+        }
+        let runner = if ops.len() > 1 && runner == Runner::Force { Runner::WithErr } else { runner };
+        threads.push(vec![Tx { runner, ops, f1: vec![], f2: vec![], f1_attempt: 0 }]);
+    }
+    Scenario { init, order, threads, f2: vec![], pre: vec![] }
+}
+
 pub fn gen_family(rng: &mut Rng) -> (&'static str, Scenario) {
-    match rng.below(20) {
+    match rng.below(26) {
+        20..=25 => ("S1b", gen_pair_conflict(rng)),
         0..=7 => ("S1", gen_s1(rng)),
         8..=12 => ("S2", gen_s2(rng)),
         13..=17 => ("S3", gen_s3(rng)),
